@@ -504,13 +504,18 @@ def _check_program(prog, level='full'):
             except Exception as e:
                 F.add('dependencies', CL_DEP_ERR, f'second dependencies({name}) raised {_exc(e)}')
     for i in range(n):
-        if prog.index(prog[i]) == i and prog.count(prog[i]) == 1:
+        if _last_index(prog, _writes(prog[i])) == i:
+            continue  # same query as dependencies(symbol) above
+        if prog.count(prog[i]) == 1:
             dep_check(f'statement #{i}', objs[i], i)
         else:
+            # a statement is identified by value; an ambiguous one must still be answered
             try:
                 st.dependencies(objs[i])
             except Exception as e:
                 F.add('dependencies', CL_DEP_ERR, f'dependencies(statement #{i}) raised {_exc(e)}')
+    if n and _last_index(prog, _writes(prog[n - 1])) == n - 1 and prog.count(prog[n - 1]) == 1:
+        dep_check(f'statement #{n - 1}', objs[n - 1], n - 1)   # the statement form of the query, once
 
     # ---- find_assignment ---------------------------------------------------------------------
     for name in names:
@@ -662,8 +667,8 @@ def _subtree(prog, fam):
 
 def _ode_programs(fam):
     """pre-ODE statements over lhs {CL,V,B}, the ODE, post-ODE statements over lhs {B,Y}"""
-    pre_syms = ('X', 'P', 'CL', 'V', 'B')
-    post_syms = (ACENT, 'B', 'E', 'CL')
+    pre_syms = fam.get('pre_syms', ('X', 'P', 'CL', 'V', 'B'))
+    post_syms = fam.get('post_syms', (ACENT, 'B', 'E', 'CL'))
     pre_stmts = [(l, r) for l in ('CL', 'V', 'B') for r in _rhs_choices(pre_syms, {})]
     post_stmts = [(l, r) for l in ('B', 'Y') for r in _rhs_choices(post_syms, {})]
     return pre_stmts, post_stmts
@@ -682,7 +687,7 @@ def _df_worker(task):
         _, reach = ref_flow(prog)
         if any(d is not None for r in reach for d in r.values()):
             nontrivial += 1
-        if cases % 997 == 1 and len(samples) < 2:
+        if len(prog) >= 2 and cases % 97 == 3 and len(samples) < 2:
             samples.append(_show(prog))
         res = _check_program(prog, fam.get('level', 'full'))
         for key, detail in res.items():
@@ -711,40 +716,43 @@ def _df_worker(task):
 def _families(tier):
     A4 = ('A', 'B', 'C', 'Y')
     L3 = ('X', 'P', 'E')
+    sums = 'rhs a sum of <=2 symbols of '
+    quick = [
+        dict(name='F1', lhs=A4, leaves=L3, ubd=True, maxlen=2,
+             bound='all programs of <=2 statements, lhs in {A,B,C,Y}, ' + sums + '{A,B,C,Y,X,P,E} '
+                   '(a symbol read before its first assignment is an input)'),
+        dict(name='F2', lhs=A4, leaves=L3, ubd=False, maxlen=3,
+             bound='all programs of <=3 statements, lhs in {A,B,C,Y}, ' + sums + '{X,P,E} and the symbols '
+                   'assigned so far (self reference to the earlier value included)'),
+        dict(name='F3', lhs=A4, leaves=('P',), ubd=True, distinct=True, maxlen=4, level='core',
+             bound='all programs A=..;B=..;C=..;Y=.. (prefixes included), ' + sums + '{A,B,C,Y,P}, only '
+                   'full_expression/dependencies/find_assignment'),
+        dict(name='F4', lhs=('A', 'B', 'Y'), leaves=('X', 'P'), ubd=False, pw=True, maxlen=2,
+             bound='all programs of <=2 statements, lhs in {A,B,Y}, rhs a symbol or Piecewise((a, c>0),(b,True)) '
+                   'over {X,P} and the symbols assigned so far, every sign pattern of the inputs'),
+        dict(name='F5', ode=True, maxpre=2, maxpost=1, pre_syms=('X', 'CL', 'V', 'B'),
+             bound='<=2 statements (lhs {CL,V,B}, ' + sums + '{X,CL,V,B}), a one-compartment ODE system with '
+                   'output rate CL/V, <=1 statement (lhs {B,Y}, ' + sums + '{A_CENTRAL(t),B,E,CL})'),
+    ]
     if tier == 'quick':
-        return [
-            dict(name='F1', lhs=A4, leaves=L3, ubd=True, maxlen=2,
-                 bound='all programs of <=2 statements, lhs in {A,B,C,Y}, rhs a sum of <=2 symbols of {A,B,C,Y,X,P,E} '
-                       '(read before assignment = input)'),
-            dict(name='F2', lhs=A4, leaves=L3, ubd=False, maxlen=3,
-                 bound='all programs of <=3 statements, lhs in {A,B,C,Y}, rhs a sum of <=2 symbols of {X,P,E} and the '
-                       'symbols assigned so far (self reference to the earlier value included)'),
-            dict(name='F3', lhs=A4, leaves=('P',), ubd=True, distinct=True, maxlen=4, level='core',
-                 bound='all programs of <=4 statements A=..;B=..;C=..;Y=.. (in this order) with rhs a sum of <=2 symbols of {A,B,C,Y,P} '
-                       '(full_expression/dependencies/find_assignment only)'),
-            dict(name='F4', lhs=('A', 'B', 'Y'), leaves=('X', 'P'), ubd=False, pw=True, maxlen=2,
-                 bound='all programs of <=2 statements, lhs in {A,B,Y}, rhs a symbol or Piecewise((a, c>0),(b,True)) over '
-                       '{X,P} and the symbols assigned so far, every sign pattern of the inputs'),
-            dict(name='F5', ode=True, maxpre=2, maxpost=1,
-                 bound='<=2 statements (lhs {CL,V,B}, rhs sum of <=2 of {X,P,CL,V,B}), a one-compartment ODE system '
-                       'with rate CL/V, <=1 statement (lhs {B,Y}, rhs sum of <=2 of {A_CENTRAL,B,E,CL})'),
-        ]
-    return [
-        dict(name='F1', lhs=A4, leaves=L3, ubd=True, maxlen=3,
-             bound='all programs of <=3 statements, lhs in {A,B,C,Y}, rhs a sum of <=2 symbols of {A,B,C,Y,X,P,E} '
-                   '(read before assignment = input)'),
-        dict(name='F2', lhs=A4, leaves=('X', 'P'), ubd=False, maxlen=4,
-             bound='all programs of <=4 statements, lhs in {A,B,C,Y}, rhs a sum of <=2 symbols of {X,P} and the '
-                   'symbols assigned so far (self reference to the earlier value included)'),
-        dict(name='F3', lhs=A4, leaves=('P',), ubd=True, canon=True, maxlen=4, level='core',
-             bound='all programs of <=4 statements with lhs symbols introduced in the order A,B,C,Y, rhs a sum of <=2 '
-                   'symbols of {A,B,C,Y,P} (full_expression/dependencies/find_assignment only)'),
-        dict(name='F4', lhs=('A', 'B', 'Y'), leaves=('X', 'P'), ubd=False, pw=True, maxlen=3,
-             bound='all programs of <=3 statements, lhs in {A,B,Y}, rhs a symbol or Piecewise((a, c>0),(b,True)) over '
-                   '{X,P} and the symbols assigned so far, every sign pattern of the inputs'),
-        dict(name='F5', ode=True, maxpre=2, maxpost=2,
-             bound='<=2 statements (lhs {CL,V,B}, rhs sum of <=2 of {X,P,CL,V,B}), a one-compartment ODE system '
-                   'with rate CL/V, <=2 statements (lhs {B,Y}, rhs sum of <=2 of {A_CENTRAL,B,E,CL})'),
+        return quick
+    return quick[:2] + [
+        dict(name='F1t', lhs=A4, leaves=L3, ubd=True, canon=True, maxlen=3,
+             bound='all programs of <=3 statements with lhs symbols introduced in the order A,B,C,Y, ' + sums +
+                   '{A,B,C,Y,X,P,E} (read before assignment = input)'),
+        dict(name='F2t', lhs=('A', 'B', 'Y'), leaves=('X', 'P'), ubd=False, maxlen=4,
+             bound='all programs of <=4 statements, lhs in {A,B,Y}, ' + sums + '{X,P} and the symbols assigned so far'),
+        dict(name='F3t', lhs=A4, leaves=('P',), ubd=True, canon=True, maxlen=4, level='core',
+             bound='all programs of <=4 statements with lhs symbols introduced in the order A,B,C,Y, ' + sums +
+                   '{A,B,C,Y,P}, only full_expression/dependencies/find_assignment'),
+        dict(name='F4t', lhs=('A', 'B', 'Y'), leaves=('X', 'P'), ubd=False, pw=True, maxlen=3,
+             bound='all programs of <=3 statements, lhs in {A,B,Y}, rhs a symbol or Piecewise((a, c>0),(b,True)) '
+                   'over {X,P} and the symbols assigned so far, every sign pattern of the inputs'),
+        dict(name='F5t', ode=True, maxpre=2, maxpost=1,
+             bound='<=2 statements (lhs {CL,V,B}, ' + sums + '{X,P,CL,V,B}), the ODE system, <=1 statement '
+                   '(lhs {B,Y}, ' + sums + '{A_CENTRAL(t),B,E,CL})'),
+        dict(name='F6t', ode=True, maxpre=1, maxpost=2,
+             bound='<=1 statement before the ODE system, <=2 statements after it (same alphabets as F5t)'),
     ]
 
 
@@ -810,4 +818,528 @@ def bounded_dataflow_replay(rp):
     key = (case['fid'], case['clause'])
     if key in res:
         return (False, res[key])
+    return (True, 'ok')
+
+
+# ==================================================================================================
+#                                   PART 2 :  C05  compartmental systems
+# ==================================================================================================
+#
+# case = {'n': n, 'edges': [[i, j], ...], 'outs': [i, ...], 'dose': d, 'input': k | None}
+#   compartments NAMES[:n]; flow i->j has rate K<i+1><j+1>; output flow of i has rate K<i+1>0;
+#   Bolus(AMT) into compartment d which also gets lag time ALAG and bioavailability FBIO (all the other
+#   compartments keep the defaults 0 / 1); optional zero-order input R0 into compartment k.
+# reference model ("ref") = plain dictionaries; the ODEs are derived from it directly:
+#   dA_c/dt = sum_j rate(j->c) A_j - (sum_j rate(c->j) + out(c)) A_c + input(c)
+
+NAMES = ['CENTRAL', 'DEPOT', 'PERI', 'X4']
+ALLNAMES = NAMES + ['NEWC']
+
+CS = STM + 'CompartmentalSystem.'
+CB = STM + 'CompartmentalSystemBuilder.'
+
+CC_ERR = 'the accessors (eqs, compartmental_matrix, amounts, compartment_names, zero_order_inputs) answer without internal error'
+CC_ORDER = 'amounts, compartment_names, zero_order_inputs, matrix rows and eqs list every compartment once in one common order'
+CC_OFFDIAG = 'compartmental_matrix[j, i] is the rate of the flow i -> j for i != j'
+CC_COLSUM = 'every column of the compartmental matrix sums to minus the output rate of that compartment (mass balance)'
+CC_EQS_MA = 'eqs == compartmental_matrix * amounts + zero_order_inputs entrywise'
+CC_EQS_REF = 'the rate of change of each amount is inflows minus outflows plus zero-order input'
+CC_MASS = 'the sum of all equations is minus the output flows plus the inputs'
+CC_TOCS_N = 'to_compartmental_system(names, eqs) has the same compartments'
+CC_TOCS_EQS = 'to_compartmental_system(names, eqs) has the same differential equations'
+CC_TOCS_FLOWS = 'to_compartmental_system(names, eqs) recovers every flow, output flow and zero-order input'
+CC_TOCS_ERR = 'to_compartmental_system raises no internal error on the equations of a system'
+CC_DICT = 'from_dict(to_dict(cs)) has the same compartments, flows, doses, inputs, lag times and bioavailabilities and equals cs'
+CC_SUBS_RATE = 'subs of the rate symbols substitutes in every flow and keeps doses, inputs, lag times and bioavailabilities'
+CC_SUBS_COMP = 'subs of dose/input/lag/bioavailability symbols substitutes in the compartments and keeps every flow'
+CC_BUILD = 'the builder produces exactly the compartments, flows, doses, inputs, lag times and bioavailabilities that were added'
+CC_ORDER_EQ = 'two systems built from the same parts in different insertion orders are equal'
+CC_ORDER_HASH = 'two systems built from the same parts in different insertion orders have equal hashes'
+CC_ORDER_EQS = 'two systems built from the same parts in different insertion orders have equal eqs, names and matrix'
+CC_NEQ = 'a system is not equal to one that differs in a compartment attribute or flow'
+CC_OP = 'the operation changes exactly what it names (every other compartment, flow and rate unchanged)'
+CC_OP_ERR = 'the operation raises no internal error'
+CC_IMMUT = 'builder operations on a copy leave the original system unchanged'
+
+
+def _cs_ref(case):
+    n = case['n']
+    names = NAMES[:n]
+    ref = {'flows': {}, 'outs': {}, 'comps': {}}
+    for i, j in case['edges']:
+        ref['flows'][(names[i], names[j])] = f'K{i + 1}{j + 1}'
+    for i in case['outs']:
+        ref['outs'][names[i]] = f'K{i + 1}0'
+    for i, nm in enumerate(names):
+        ref['comps'][nm] = {'doses': (), 'input': '0', 'lag': '0', 'bio': '1'}
+    d = names[case['dose']]
+    ref['comps'][d].update(doses=(('Bolus', 'AMT', 1),), lag='ALAG', bio='FBIO')
+    if case.get('input') is not None:
+        ref['comps'][names[case['input']]]['input'] = 'R0'
+    return ref
+
+
+def _copy_ref(ref):
+    return {'flows': dict(ref['flows']), 'outs': dict(ref['outs']),
+            'comps': {k: dict(v) for k, v in ref['comps'].items()}}
+
+
+def _mk_dose(d):
+    px = _px()
+    assert d[0] == 'Bolus'
+    return px['Bolus'].create(d[1], admid=d[2])
+
+
+def _cs_build(ref, order):
+    """order 0: complete Compartment objects, compartments/flows in sorted order, outputs last
+       order 1: bare compartments in reverse order, outputs first, flows reversed, then the attributes
+                through the builder operations (set_dose, set_input, set_lag_time, set_bioavailability)"""
+    px = _px()
+    Compartment, output = px['Compartment'], px['output']
+    cb = px['Builder']()
+    names = sorted(ref['comps'])
+    if order == 0:
+        objs = {}
+        for nm in names:
+            c = ref['comps'][nm]
+            objs[nm] = Compartment.create(nm, doses=tuple(_mk_dose(d) for d in c['doses']), input=c['input'],
+                                          lag_time=c['lag'], bioavailability=c['bio'])
+            cb.add_compartment(objs[nm])
+        for (a, b), rate in sorted(ref['flows'].items()):
+            cb.add_flow(objs[a], objs[b], rate)
+        for a, rate in sorted(ref['outs'].items()):
+            cb.add_flow(objs[a], output, rate)
+    else:
+        objs = {}
+        for nm in reversed(names):
+            objs[nm] = Compartment.create(nm)
+            cb.add_compartment(objs[nm])
+        for a, rate in sorted(ref['outs'].items(), reverse=True):
+            cb.add_flow(objs[a], output, rate)
+        for (a, b), rate in sorted(ref['flows'].items(), reverse=True):
+            cb.add_flow(objs[a], objs[b], rate)
+        for nm in reversed(names):
+            c = ref['comps'][nm]
+            if c['bio'] != '1':
+                cb.set_bioavailability(cb.find_compartment(nm), c['bio'])
+            if c['doses']:
+                cb.set_dose(cb.find_compartment(nm), tuple(_mk_dose(d) for d in c['doses']))
+            if c['input'] != '0':
+                cb.set_input(cb.find_compartment(nm), c['input'])
+            if c['lag'] != '0':
+                cb.set_lag_time(cb.find_compartment(nm), c['lag'])
+    return px['CompartmentalSystem'](cb)
+
+
+def _observe(cs):
+    """plain-data view of a system through find_compartment / get_flow"""
+    output = _px()['output']
+    comps = {}
+    for nm in ALLNAMES:
+        c = cs.find_compartment(nm)
+        if c is not None:
+            comps[nm] = c
+    obs = {'flows': {}, 'outs': {}, 'comps': {}, 'len': len(cs)}
+    for nm, c in comps.items():
+        obs['comps'][nm] = {'doses': tuple((type(d).__name__, str(d.amount), d.admid) for d in c.doses),
+                            'input': str(c.input), 'lag': str(c.lag_time), 'bio': str(c.bioavailability)}
+        if str(c.amount) != f'A_{nm}(t)':
+            obs['comps'][nm]['amount'] = str(c.amount)
+        r = cs.get_flow(c, output)
+        if r != 0:
+            obs['outs'][nm] = str(r)
+        for nm2, c2 in comps.items():
+            if nm2 != nm:
+                r = cs.get_flow(c, c2)
+                if r != 0:
+                    obs['flows'][(nm, nm2)] = str(r)
+    return obs
+
+
+def _obs_matches(obs, ref):
+    return (obs['flows'] == ref['flows'] and obs['outs'] == ref['outs'] and obs['comps'] == ref['comps']
+            and obs['len'] == len(ref['comps']))
+
+
+def _obs_diff(obs, ref):
+    out = []
+    for k in ('flows', 'outs', 'comps'):
+        if obs[k] != ref[k]:
+            out.append(f'{k}: got {_j(obs[k])} expected {_j(ref[k])}')
+    if obs['len'] != len(ref['comps']):
+        out.append(f"len {obs['len']} expected {len(ref['comps'])}")
+    return '; '.join(out)[:600]
+
+
+def _j(d):
+    return {('->'.join(k) if isinstance(k, tuple) else k): v for k, v in d.items()}
+
+
+def _amt(nm):
+    return _px()['Expr'].function(f'A_{nm}', 't')
+
+
+def _is_zero(e):
+    Expr = _px()['Expr']
+    e = Expr(e).expand()
+    if e == 0:
+        return True
+    import sympy
+    return sympy.simplify(sympy.sympify(e._sympy_())) == 0
+
+
+def _ref_rhs(ref, nm):
+    Expr = _px()['Expr']
+    e = Expr(ref['comps'][nm]['input'])
+    for (a, b), rate in ref['flows'].items():
+        if b == nm:
+            e = e + Expr(rate) * _amt(a)
+        if a == nm:
+            e = e - Expr(rate) * _amt(nm)
+    if nm in ref['outs']:
+        e = e - Expr(ref['outs'][nm]) * _amt(nm)
+    return e
+
+
+def _check_system(cs, ref, add, what=''):
+    """C05 consistency clauses of one system against the reference model"""
+    Expr = _px()['Expr']
+    try:
+        names = list(cs.compartment_names)
+        amounts = list(cs.amounts)
+        u = list(cs.zero_order_inputs)
+        M = cs.compartmental_matrix
+        eqs = list(cs.eqs)
+    except Exception as e:
+        add(CS + 'eqs', CC_ERR, f'{what}accessor raised {_exc(e)}')
+        return
+    n = len(ref['comps'])
+    t = Expr.symbol('t')
+    ok = (sorted(names) == sorted(ref['comps']) and len(amounts) == n and len(u) == n and len(eqs) == n
+          and M.rows == n and M.cols == n)
+    if ok:
+        for i, nm in enumerate(names):
+            if amounts[i] != _amt(nm) or u[i] != Expr(ref['comps'][nm]['input']) or \
+                    eqs[i].lhs != Expr.derivative(_amt(nm), t):
+                ok = False
+    if not ok:
+        add(CS + '_order_compartments', CC_ORDER,
+            f'{what}names {names}, amounts {[str(a) for a in amounts]}, inputs {[str(x) for x in u]}, '
+            f'eq lhs {[str(e.lhs) for e in eqs]}, matrix {M.rows}x{M.cols}')
+        return
+    for i, src in enumerate(names):
+        col = Expr.integer(0)
+        for j, dst in enumerate(names):
+            col = col + M[j, i]
+            if i != j:
+                want = Expr(ref['flows'].get((src, dst), 0))
+                if M[j, i] != want:
+                    add(CS + 'compartmental_matrix', CC_OFFDIAG,
+                        f'{what}matrix[{j},{i}] = {M[j, i]} but rate({src}->{dst}) = {want}; names {names}')
+        if not _is_zero(col + Expr(ref['outs'].get(src, 0))):
+            add(CS + 'compartmental_matrix', CC_COLSUM,
+                f'{what}column {i} ({src}) sums to {col.expand()}, output rate is {ref["outs"].get(src, 0)}')
+    total = Expr.integer(0)
+    for i, nm in enumerate(names):
+        rhs = eqs[i].rhs
+        ma = u[i]
+        for j in range(n):
+            ma = ma + M[i, j] * amounts[j]
+        if not _is_zero(rhs - ma):
+            add(CS + 'eqs', CC_EQS_MA, f'{what}eq {i}: {eqs[i]} but (M*A+u)[{i}] = {ma.expand()}')
+        if not _is_zero(rhs - _ref_rhs(ref, nm)):
+            add(CS + 'eqs', CC_EQS_REF, f'{what}{eqs[i]} but inflows - outflows + input = {_ref_rhs(ref, nm).expand()}')
+        total = total + rhs
+    bal = Expr.integer(0)
+    for nm in names:
+        bal = bal - Expr(ref['outs'].get(nm, 0)) * _amt(nm) + Expr(ref['comps'][nm]['input'])
+    if not _is_zero(total - bal):
+        add(CS + 'eqs', CC_MASS, f'{what}sum of right hand sides {total.expand()} != {bal.expand()}')
+
+
+def _rename(s, mapping):
+    return mapping.get(s, s)
+
+
+def _ops(ref):
+    """single builder operations with the expected edited reference model.
+    yields (label, method, fn(cb) -> None, expected ref)"""
+    px = _px()
+    Compartment, output, Bolus = px['Compartment'], px['output'], px['Bolus']
+    names = sorted(ref['comps'])
+    dosecomp = [nm for nm in names if ref['comps'][nm]['doses']][0]
+    d2 = ('Bolus', 'AMT2', 2)
+    for nm in names:
+        r = _copy_ref(ref)
+        r['comps'][nm]['doses'] = (d2,)
+        yield (f'set_dose({nm}, Bolus(AMT2, admid=2))', 'set_dose',
+               lambda cb, nm=nm: cb.set_dose(cb.find_compartment(nm), Bolus.create('AMT2', admid=2)), r)
+        r = _copy_ref(ref)
+        r['comps'][nm]['doses'] = r['comps'][nm]['doses'] + (d2,)
+        yield (f'add_dose({nm}, Bolus(AMT2, admid=2))', 'add_dose',
+               lambda cb, nm=nm: cb.add_dose(cb.find_compartment(nm), Bolus.create('AMT2', admid=2)), r)
+        r = _copy_ref(ref)
+        r['comps'][nm]['lag'] = 'L2'
+        yield (f'set_lag_time({nm}, L2)', 'set_lag_time',
+               lambda cb, nm=nm: cb.set_lag_time(cb.find_compartment(nm), 'L2'), r)
+        r = _copy_ref(ref)
+        r['comps'][nm]['bio'] = 'F2'
+        yield (f'set_bioavailability({nm}, F2)', 'set_bioavailability',
+               lambda cb, nm=nm: cb.set_bioavailability(cb.find_compartment(nm), 'F2'), r)
+        r = _copy_ref(ref)
+        r['comps'][nm]['input'] = 'R2'
+        yield (f'set_input({nm}, R2)', 'set_input',
+               lambda cb, nm=nm: cb.set_input(cb.find_compartment(nm), 'R2'), r)
+        if nm != dosecomp:
+            r = _copy_ref(ref)
+            r['comps'][nm]['doses'] = r['comps'][nm]['doses'] + ref['comps'][dosecomp]['doses']
+            r['comps'][dosecomp]['doses'] = ()
+            yield (f'move_dose({dosecomp}, {nm})', 'move_dose',
+                   lambda cb, nm=nm: cb.move_dose(cb.find_compartment(dosecomp), cb.find_compartment(nm)), r)
+        if len(names) > 1:
+            r = _copy_ref(ref)
+            del r['comps'][nm]
+            r['flows'] = {k: v for k, v in r['flows'].items() if nm not in k}
+            r['outs'].pop(nm, None)
+            yield (f'remove_compartment({nm})', 'remove_compartment',
+                   lambda cb, nm=nm: cb.remove_compartment(cb.find_compartment(nm)), r)
+    r = _copy_ref(ref)
+    r['comps'][dosecomp]['doses'] = ()
+    yield (f'remove_dose({dosecomp})', 'remove_dose',
+           lambda cb: cb.remove_dose(cb.find_compartment(dosecomp)), r)
+    yield (f'remove_dose({dosecomp}, admid=1)', 'remove_dose',
+           lambda cb: cb.remove_dose(cb.find_compartment(dosecomp), admid=1), r)
+    yield (f'remove_dose({dosecomp}, admid=2)', 'remove_dose',
+           lambda cb: cb.remove_dose(cb.find_compartment(dosecomp), admid=2), _copy_ref(ref))
+    # first missing flow / first present flow / first output / a new compartment
+    missing = [(a, b) for a in names for b in names if a != b and (a, b) not in ref['flows']]
+    if missing:
+        a, b = missing[0]
+        r = _copy_ref(ref)
+        r['flows'][(a, b)] = 'KNEW'
+        yield (f'add_flow({a}, {b}, KNEW)', 'add_flow',
+               lambda cb: cb.add_flow(cb.find_compartment(a), cb.find_compartment(b), 'KNEW'), r)
+    if ref['flows']:
+        a2, b2 = sorted(ref['flows'])[-1]
+        r = _copy_ref(ref)
+        del r['flows'][(a2, b2)]
+        yield (f'remove_flow({a2}, {b2})', 'remove_flow',
+               lambda cb: cb.remove_flow(cb.find_compartment(a2), cb.find_compartment(b2)), r)
+    if ref['outs']:
+        a3 = sorted(ref['outs'])[0]
+        r = _copy_ref(ref)
+        del r['outs'][a3]
+        yield (f'remove_flow({a3}, output)', 'remove_flow',
+               lambda cb: cb.remove_flow(cb.find_compartment(a3), output), r)
+    r = _copy_ref(ref)
+    r['comps']['NEWC'] = {'doses': (), 'input': '0', 'lag': '0', 'bio': '1'}
+    r['flows'][('NEWC', names[0])] = 'KN1'
+    yield (f'add_compartment(NEWC); add_flow(NEWC, {names[0]}, KN1)', 'add_compartment',
+           lambda cb: (cb.add_compartment(Compartment.create('NEWC')),
+                       cb.add_flow(cb.find_compartment('NEWC'), cb.find_compartment(names[0]), 'KN1')), r)
+
+
+def _check_cs_case(case, with_tocs=True):
+    """all C05 clauses on one case; returns {(fid, clause): detail}"""
+    px = _px()
+    Expr = px['Expr']
+    CompartmentalSystem = px['CompartmentalSystem']
+    fails = {}
+
+    def add(fid, clause, detail):
+        if (fid, clause) not in fails:
+            fails[(fid, clause)] = detail
+
+    ref = _cs_ref(case)
+    try:
+        cs = _cs_build(ref, 0)
+        cs1 = _cs_build(ref, 1)
+    except Exception as e:
+        add(CB + 'add_flow', CC_BUILD, f'building raised {_exc(e)}')
+        return fails
+    obs = _observe(cs)
+    obs1 = _observe(cs1)
+    if not _obs_matches(obs, ref):
+        add(CB + 'add_flow', CC_BUILD, 'order 0: ' + _obs_diff(obs, ref))
+    if not _obs_matches(obs1, ref):
+        add(CB + 'set_dose', CC_BUILD, 'order 1 (attributes set through the builder): ' + _obs_diff(obs1, ref))
+    _check_system(cs, ref, add)
+    _check_system(cs1, ref, add, 'reverse insertion order: ')
+
+    # ---- two insertion orders ----------------------------------------------------------------
+    try:
+        if not (cs == cs1 and cs1 == cs):
+            add(CS + '__eq__', CC_ORDER_EQ, 'cs(order 0) != cs(order 1)')
+        elif hash(cs) != hash(cs1):
+            add(CS + '__hash__', CC_ORDER_HASH, 'equal systems, different hashes')
+    except Exception as e:
+        add(CS + '__eq__', CC_ORDER_EQ, f'comparing raised {_exc(e)}')
+    try:
+        if tuple(cs.eqs) != tuple(cs1.eqs) or list(cs.compartment_names) != list(cs1.compartment_names) or \
+                cs.compartmental_matrix != cs1.compartmental_matrix or cs.amounts != cs1.amounts or \
+                cs.zero_order_inputs != cs1.zero_order_inputs:
+            add(CS + '_order_compartments', CC_ORDER_EQS,
+                f'names {cs.compartment_names} vs {cs1.compartment_names}; eqs {cs.eqs} vs {cs1.eqs}')
+    except Exception as e:
+        add(CS + 'eqs', CC_ERR, f'accessor raised {_exc(e)}')
+
+    # ---- serialisation -------------------------------------------------------------------------
+    try:
+        back = CompartmentalSystem.from_dict(cs.to_dict())
+        ob = _observe(back)
+        if not _obs_matches(ob, ref):
+            add(CS + 'to_dict', CC_DICT, _obs_diff(ob, ref))
+        elif not (back == cs):
+            add(CS + 'to_dict', CC_DICT, 'from_dict(to_dict(cs)) != cs')
+        elif tuple(back.eqs) != tuple(cs.eqs):
+            add(CS + 'to_dict', CC_DICT, f'eqs changed: {back.eqs} vs {cs.eqs}')
+    except Exception as e:
+        add(CS + 'to_dict', CC_DICT, f'round trip raised {_exc(e)}')
+
+    # ---- substitution --------------------------------------------------------------------------
+    rates = sorted(set(ref['flows'].values()) | set(ref['outs'].values()))
+    try:
+        mp = {r: r + 'S' for r in rates}
+        sub = cs.subs({Expr.symbol(k): Expr.symbol(v) for k, v in mp.items()})
+        want = _copy_ref(ref)
+        want['flows'] = {k: mp[v] for k, v in ref['flows'].items()}
+        want['outs'] = {k: mp[v] for k, v in ref['outs'].items()}
+        ob = _observe(sub)
+        if not _obs_matches(ob, want):
+            add(CS + 'subs', CC_SUBS_RATE, _obs_diff(ob, want))
+        if not _obs_matches(_observe(cs), ref):
+            add(CS + 'subs', CC_IMMUT, 'subs changed the original system')
+        _check_system(sub, want, add, 'after subs of the rates: ')
+        mp = {'AMT': 'DOSE', 'ALAG': 'LAG9', 'FBIO': 'F9', 'R0': 'RR'}
+        sub = cs.subs({k: v for k, v in mp.items()})    # str keys as in the docstring
+        want = _copy_ref(ref)
+        for c in want['comps'].values():
+            c['doses'] = tuple((d[0], _rename(d[1], mp), d[2]) for d in c['doses'])
+            for k in ('input', 'lag', 'bio'):
+                c[k] = _rename(c[k], mp)
+        ob = _observe(sub)
+        if not _obs_matches(ob, want):
+            add(CS + 'subs', CC_SUBS_COMP, _obs_diff(ob, want))
+    except Exception as e:
+        add(CS + 'subs', CC_SUBS_RATE, f'subs raised {_exc(e)}')
+
+    # ---- equations -> system ---------------------------------------------------------------------
+    if with_tocs:
+        try:
+            fmap = {_amt(nm): nm for nm in ref['comps']}
+            back = px['to_cs'](fmap, [e._sympy_() for e in cs.eqs])
+            ob = _observe(back)
+            if sorted(ob['comps']) != sorted(ref['comps']) or len(back) != len(ref['comps']):
+                add(STM + 'to_compartmental_system', CC_TOCS_N, f'compartments {sorted(ob["comps"])}, len {len(back)}')
+            else:
+                beqs = {str(e.lhs): e.rhs for e in back.eqs}
+                for e in cs.eqs:
+                    if str(e.lhs) not in beqs or not _is_zero(beqs[str(e.lhs)] - e.rhs):
+                        add(STM + 'to_compartmental_system', CC_TOCS_EQS,
+                            f'{e} became {beqs.get(str(e.lhs))}; all: {back.eqs}')
+                        break
+                inputs = {k: v['input'] for k, v in ob['comps'].items()}
+                want_inputs = {k: v['input'] for k, v in ref['comps'].items()}
+                if ob['flows'] != ref['flows'] or ob['outs'] != ref['outs'] or inputs != want_inputs:
+                    add(STM + 'to_compartmental_system', CC_TOCS_FLOWS,
+                        f'flows {_j(ob["flows"])} outs {ob["outs"]} inputs {inputs}; expected {_j(ref["flows"])} '
+                        f'{ref["outs"]} {want_inputs}')
+        except Exception as e:
+            add(STM + 'to_compartmental_system', CC_TOCS_ERR, f'raised {_exc(e)}')
+
+    # ---- single builder operations -----------------------------------------------------------------
+    for label, method, fn, want in _ops(ref):
+        try:
+            cb = px['Builder'](cs)
+            fn(cb)
+            cs2 = CompartmentalSystem(cb)
+            ob = _observe(cs2)
+        except Exception as e:
+            add(CB + method, CC_OP_ERR, f'{label} raised {_exc(e)}')
+            continue
+        if not _obs_matches(ob, want):
+            add(CB + method, CC_OP, f'{label}: ' + _obs_diff(ob, want))
+            continue
+        _check_system(cs2, want, add, f'after {label}: ')
+        if want != ref:
+            try:
+                if cs2 == cs or cs == cs2:
+                    add(CS + '__eq__', CC_NEQ, f'system after {label} == original')
+            except Exception as e:
+                add(CS + '__eq__', CC_NEQ, f'comparing with the system after {label} raised {_exc(e)}')
+    if not _obs_matches(_observe(cs), ref):
+        add(CB + '__init__', CC_IMMUT, 'the original system changed: ' + _obs_diff(_observe(cs), ref))
+    return fails
+
+
+def _cs_cases(n, inputs_all=True):
+    pairs = [(i, j) for i in range(n) for j in range(n) if i != j]
+    for mask in range(1 << len(pairs)):
+        edges = [list(p) for b, p in enumerate(pairs) if mask >> b & 1]
+        for omask in range(1 << n):
+            outs = [i for i in range(n) if omask >> i & 1]
+            for dose in range(n):
+                ins = [None] + (list(range(n)) if inputs_all else [(dose + 1) % n])
+                for k in ins:
+                    yield {'n': n, 'edges': edges, 'outs': outs, 'dose': dose, 'input': k}
+
+
+def _cs_size(case):
+    return (case['n'], len(case['edges']) + len(case['outs']) + (case['input'] is not None),
+            repr(sorted(case.items())))
+
+
+def _cs_worker(chunk):
+    fails = {}
+    nontrivial = 0
+    for case, with_tocs in chunk:
+        if case['edges'] or case['outs']:
+            nontrivial += 1
+        res = _check_cs_case(case, with_tocs)
+        for key, detail in res.items():
+            old = fails.get(key)
+            if old is None or _cs_size(case) < _cs_size(old[1]):
+                fails[key] = (detail, case)
+    return len(chunk), nontrivial, fails
+
+
+def bounded_compartmental(tier):
+    cases = []
+    for n in (1, 2, 3):
+        cases += [(c, True) for c in _cs_cases(n)]
+    bound = ('all directed graphs on <=3 compartments (CENTRAL, DEPOT, PERI) with distinct symbolic rates x every '
+             'subset of output flows x Bolus dose (with lag time and bioavailability) on each compartment x zero-order '
+             'input on none or one compartment, each built in 2 insertion orders, plus every single builder operation')
+    if tier != 'quick':
+        cases += [(c, len(c['edges']) <= 3) for c in _cs_cases(4, inputs_all=False)]
+        bound += (' | thorough: the same on 4 compartments (+X4) with the input on none or on the compartment after '
+                  'the dose compartment; to_compartmental_system only for <=3 flows')
+    chunks = [cases[i::NPROC * 8] for i in range(NPROC * 8)]
+    chunks = [c for c in chunks if c]
+    results = _run_pool(_cs_worker, chunks)
+    total = nontrivial = 0
+    fails = {}
+    for c, nt, fl in results:
+        total += c
+        nontrivial += nt
+        for key, (detail, case) in fl.items():
+            old = fails.get(key)
+            if old is None or _cs_size(case) < _cs_size(old[1]):
+                fails[key] = (detail, case)
+    out_fails = []
+    for (fid, clause), (detail, case) in sorted(fails.items()):
+        out_fails.append({'fid': fid, 'clause': clause, 'detail': f'{detail}   [case: {case}]',
+                          'case': dict(case, fid=fid, clause=clause),
+                          'replay_fn': 'bounded_compartmental_replay'})
+    samples = [repr(cases[i][0]) for i in (5, len(cases) // 2, len(cases) - 1)]
+    return {'cases': total, 'nontrivial': nontrivial, 'bound': bound, 'samples': samples, 'fails': out_fails}
+
+
+def bounded_compartmental_replay(rp):
+    case = dict(rp['case'])
+    fid, clause = case.pop('fid'), case.pop('clause')
+    case['edges'] = [list(e) for e in case['edges']]
+    res = _check_cs_case(case, True)
+    if (fid, clause) in res:
+        return (False, res[(fid, clause)])
     return (True, 'ok')
